@@ -20,6 +20,7 @@ Shared by props/c06.py (shortest distances) and props/c07.py (shortest paths).
   name the routing code uses (in the harness process only); it calls the original methods.
 """
 import copy
+import re
 import itertools
 
 from mc import alpha
@@ -184,6 +185,9 @@ _EDGE_FIELDS = frozenset(["geom", "id", "orientation", "source", "target", "weig
 _ATOMS = (int, float, str, bool, type(None))
 
 
+_ADDR = re.compile(r"0x[0-9a-fA-F]+")
+
+
 def _slots_of(o):
     out = []
     for c in type(o).__mro__:
@@ -210,7 +214,7 @@ def _enc(v):
     d = getattr(v, "__dict__", None)
     if isinstance(d, dict):
         return (c.__name__, _enc(d))
-    return ("repr", repr(v))
+    return ("repr", _ADDR.sub("0x", repr(v)))        # an opaque object (e.g. a bare object() used as a token): no address
 
 
 class Graph(object):
